@@ -315,6 +315,27 @@ def _near(c, a, b=None):
     return ("abs" in s or "is_equal_rel" in s)
 
 
+def _window_about(conds, var):
+    """(centre, half-width) of a closeness test on `var`: |var - c| < W, or is_equal_rel(var, c, eps) (half-width eps (1 + max(|var|, |c|)) <= eps (1 + |c|)/(1 - eps)), or is_equal(var, c, eps) (absolute)"""
+    v = SYM(var)
+    for c in conds:
+        if c[0] == "cmp" and c[1] in ("<", "<=") and c[2][0] == "call" and c[2][1] == "abs" and c[3][0] == "num":
+            a = c[2][2][0]
+            if a[0] == "-" and a[1] == v and a[2][0] == "num":
+                return a[2][1], float(c[3][1])
+            if a[0] == "-" and a[2] == v and a[1][0] == "num":
+                return a[1][1], float(c[3][1])
+        if c[0] == "call" and str(c[1]).split("::")[-1] in ("is_equal_rel", "is_equal") and len(c[2]) == 3:
+            a, b, e = c[2]
+            if b == v:
+                a, b = b, a
+            if a == v and b[0] == "num" and e[0] == "num":
+                # gm2_numerics.hpp: is_equal_rel(a, b, eps) <=> |a - b| < eps (1 + max(|a|, |b|))
+                w = float(e[1]) * ((1 + abs(float(b[1]))) / (1 - float(e[1])) if str(c[1]).endswith("is_equal_rel") else 1.0)
+                return b[1], w
+    return None
+
+
 # ---- Barr-Zee functions --------------------------------------------------------------------------------------
 
 def _r4_barr_zee(F, R, lv, gen_m, spec_m, fClc):
@@ -360,19 +381,19 @@ def _r4_barr_zee(F, R, lv, gen_m, spec_m, fClc):
             if not extra:
                 R.check("R4", (val - lim).is_zero(), "%s(x,x) == x f'(x) - f(x)" % cname, loc,
                         "equal-argument branch of %s is not the limit y -> x of its generic form" % cname, key="R4|%s|eq" % cname)
-            elif any("abs((x - 1/4))" in k for k in kinds):
-                # value + slope around 1/4
+            elif _window_about(extra, "x") is not None:
+                # value + slope around the centre of the window (1/4 today)
                 try:
+                    ctr0, _w = _window_about(extra, "x")
                     deg = val.n.degree_in(SYM("x"))
-                    tc = taylor(val, "x", Fraction(1, 4), deg + 1)
-                    cc = taylor(lim, "x", Fraction(1, 4), deg + 3)
+                    tc = taylor(val, "x", ctr0, deg + 1)
+                    cc = taylor(lim, "x", ctr0, deg + 3)
                     bad = [i for i in range(deg + 1) if not same_value(Rat(tc[i]), Rat(cc[i]))]
                     R.check("R4", not bad, "%s(x,x) around 1/4: %d coefficient(s) from the series of f_PS" % (cname, deg + 1), loc,
                             "%s near x = y = 1/4: coefficient(s) %s differ from the expansion of the limit form "
                             "(code %s, exact %s)" % (cname, bad, [poly_float(tc[i]) for i in bad], [poly_float(cc[i]) for i in bad]),
                             key="R4|%s|quarter" % cname)
-                    W = [c for c in extra if "abs((x - 1/4))" in show(c)][0][3]
-                    Wf = float(W[1]) if W[0] == "num" else None
+                    ctr, Wf = _window_about(extra, "x")
                     if Wf:
                         err = abs(poly_float(cc[deg + 1])) * Wf ** (deg + 1) / abs(poly_float(cc[0]))
                         R.check("R4", err <= 1e-6, "%s(x,x) around 1/4: truncation %.1e" % (cname, err), loc,
